@@ -150,6 +150,15 @@ fn c13_subs() -> Vec<Box<dyn Sub>> {
         body: Box::new(crate::p_generics::generics_body),
         guard_death: false,
         max_shrink: 160,
+    }),
+    Box::new(Check {
+        name: "recursive_definitions_with_bounds",
+        quick: 64,
+        thorough: 512,
+        strat: Box::new(crate::p_generics::rcase),
+        body: Box::new(crate::p_generics::recursive_body),
+        guard_death: false,
+        max_shrink: 16,
     })]
 }
 
@@ -273,8 +282,8 @@ pub fn all() -> Vec<PropDef> {
         },
         PropDef {
             id: "C13",
-            rule: "one generated generic definition per program (struct or enum; parameters used directly, in Vec/Option/tuple/array/Box/BTreeMap, in PhantomData, through T::A and <T as Tr>::B, in self-referential positions, as compact members, in #[codec(skip)] members and variants of types without type info; up to two lifetimes incl. 'b: 'a, const parameter, defaults, inline bounds, where-clauses, raw identifiers, skip_type_params, explicit bounds(..)) with 1-3 instantiations chosen so that exactly the stated premises hold; oracle = rustc accepts the definition and assert_type_info::<Inst>() (twin without the derive must compile too), type_info() runs and lists parameters Some/None per skip_type_params; non-trivial = at least one type parameter, distinct by case",
-            assumptions: &["relaxed bounds (T: ?Sized) and mutually recursive generic definitions without a bounds attribute are outside the stated grammar and not generated", "rustc's trait solver is the oracle"],
+            rule: "one generated generic definition per program (struct or enum; parameters used directly, in Vec/Option/tuple/array/Box/BTreeMap, in PhantomData, through T::A and <T as Tr>::B, in self-referential positions, as compact members, in #[codec(skip)] members and variants of types without type info; up to two lifetimes incl. 'b: 'a, const parameter, defaults, inline bounds, where-clauses, raw identifiers, skip_type_params, explicit bounds(..) written with and without 'static) with 1-3 instantiations chosen so that exactly the stated premises hold; oracle = rustc accepts the definition and assert_type_info::<Inst>() (twin without the derive must compile too), type_info() runs and lists parameters Some/None per skip_type_params; non-trivial = at least one type parameter, distinct by case",
+            assumptions: &["relaxed bounds (T: ?Sized) are outside the stated grammar; mutually recursive generic definitions are generated only with the bounds attribute they need (sub-check recursive_definitions_with_bounds: four templates with variation)", "rustc's trait solver is the oracle"],
             subs: c13_subs,
             extra: None,
         },
